@@ -28,6 +28,50 @@ struct GFRef {
 
 std::vector<long> matsubara_set() { std::vector<long> n; for (long k = -3; k <= 2; ++k) n.push_back(k); n.push_back(50); n.push_back(-50); return n; }
 
+
+// ---- the container of all components: BFS over call histories of one GFContainer (prepareAll with several index sets, computeAll,
+//      lookups through both operator() overloads, on-demand elements) -- whatever was prepared / requested before, a component that
+//      is stored under (i,j) IS the component (i,j), a lookup returns the stored element, and a computed element equals the stand-alone one
+void container_histories(const Args& a, Recorder& rec, Clock& clk) {
+    std::vector<PlanItem> plan; for (const char* sid : { "S2", "S4", "S11" }) { PlanItem it; it.shape = sid; it.depth = 1; it.opts.rich = false; plan.push_back(it); }
+    int maxdepth = a.thorough() ? 4 : 3; std::vector<long> ns = { -2, 0, 1 }; double beta = 5;
+    for_each_state(a, rec, plan, [&](Ctx& c) {
+        if (c.st.hist.empty()) return;                      // need some hybridisation: skip the empty model
+        if (stage_states(c, rec, SYM_DEFAULT, 0, false) != ST_OK) return;
+        Pipe& P = c.P; int M = std::min(P.M, 3); P.make_hamiltonian(); P.make_rho(beta); P.make_ops();
+        std::map<std::pair<int,int>, std::vector<cd> > direct;
+        for (int i = 0; i < M; ++i) for (int j = 0; j < M; ++j) { GreensFunction G(*P.S, *P.H, P.Ops->getAnnihilationOperator(i), P.Ops->getCreationOperator(j), *P.rho); G.prepare(); G.compute(); for (long n : ns) direct[std::make_pair(i, j)].push_back(G(n)); }
+        struct Op { int kind; std::vector<std::pair<int,int> > set; int i, j; std::string repr; }; std::vector<Op> A;
+        auto prep = [&](std::vector<std::pair<int,int> > st, const char* nm) { Op o; o.kind = 0; o.set = st; o.i = o.j = 0; o.repr = std::string("prepareAll(") + nm + ")"; A.push_back(o); };
+        prep({}, "all"); prep({ { 0, 1 } }, "{01}"); prep({ { 1, 0 }, { 0, 0 } }, "{10,00}"); prep({ { M - 1, 0 } }, "{last,0}");
+        { Op o; o.kind = 1; o.i = o.j = 0; o.repr = "computeAll()"; A.push_back(o); }
+        for (int i = 0; i < M; ++i) for (int j = 0; j < M; ++j) { std::string q = std::to_string(i) + "," + std::to_string(j);
+            { Op o; o.kind = 2; o.i = i; o.j = j; o.repr = "G(" + q + ")"; A.push_back(o); } { Op o; o.kind = 3; o.i = i; o.j = j; o.repr = "G(IndexCombination2(" + q + "))"; A.push_back(o); } { Op o; o.kind = 4; o.i = i; o.j = j; o.repr = "G(" + q + ").prepare+compute"; A.push_back(o); } }
+        auto hrepr = [&](const std::vector<int>& h) { std::string s = c.repr + " | container: "; for (size_t k = 0; k < h.size(); ++k) { s += (k ? ";" : ""); s += A[h[k]].repr; } return s; };
+        auto replay = [&](const std::vector<int>& h, bool check, std::string& key) {
+            GFContainer X(*P.IC, *P.S, *P.H, *P.rho, *P.Ops); std::string hr = hrepr(h);
+            for (size_t st = 0; st < h.size(); ++st) { const Op& o = A[h[st]];
+                if (o.kind == 0) { std::set<IndexCombination2> s; for (auto& q : o.set) s.insert(IndexCombination2(q.first, q.second)); X.prepareAll(s); }
+                else if (o.kind == 1) X.computeAll();
+                else { GreensFunction* e = (o.kind == 3) ? &X(IndexCombination2(o.i, o.j)) : &X(o.i, o.j);
+                    if (check && st + 1 == h.size()) { rec.evaluations++; auto it = X.ElementsMap.find(IndexCombination2(o.i, o.j));
+                        if (it == X.ElementsMap.end() || it->second.get() != e) rec.violation(std::string("C01:container:lookup-returns-other-element:") + (o.kind == 3 ? "IndexCombination2" : "two-index"), "a lookup does not return the element stored under the requested index pair", hr); }
+                    if (o.kind == 4) { e->prepare(); e->compute(); } } }
+            std::ostringstream ks; for (auto it = X.ElementsMap.begin(); it != X.ElementsMap.end(); ++it) ks << it->first.Index1 << it->first.Index2 << ":" << it->second->getStatus() << ":" << it->second->getIndex(0) << it->second->getIndex(1) << ";"; key = ks.str();
+            if (!check) return;
+            for (auto it = X.ElementsMap.begin(); it != X.ElementsMap.end(); ++it) { int i = it->first.Index1, j = it->first.Index2; GreensFunction& e = *it->second; rec.evaluations++;
+                if ((int)e.getIndex(0) != i || (int)e.getIndex(1) != j) { rec.violation("C01:container:element-has-other-indices", "the element stored under (i,j) is a Green's function of other indices", hr + " element " + std::to_string(i) + std::to_string(j)); continue; }
+                if (e.getStatus() == ComputableObject::Computed && i < M && j < M) for (size_t k = 0; k < ns.size(); ++k) { cd v = e(ns[k]), d = direct[std::make_pair(i, j)][k];
+                    if (std::abs(v - d) > 1e-10 * (1 + std::abs(d))) { rec.violation("C01:container:value-depends-on-history", "a computed container element differs from the stand-alone Green's function of the same indices", hr + " element " + std::to_string(i) + std::to_string(j)); break; } } }
+        };
+        std::unordered_set<std::string> seen; std::vector<std::vector<int> > frontier(1), next; { std::string k; replay(frontier[0], false, k); seen.insert(k); }
+        for (int d = 0; d <= maxdepth; ++d) { next.clear();
+            for (auto& h : frontier) { std::string k; replay(h, true, k); rec.counters["container_states"]++; if (d == maxdepth) continue;
+                for (size_t o = 0; o < A.size(); ++o) { std::vector<int> h2 = h; h2.push_back((int)o); rec.counters["container_transitions"]++; std::string k2; replay(h2, false, k2); if (seen.insert(k2).second) next.push_back(h2); else if (A[o].kind >= 2) { std::string k3; replay(h2, true, k3); } } }
+            frontier.swap(next); if (clk.s() > a.deadline) { rec.exhaustive = false; break; } }
+    }, clk);
+}
+
 int run_c01(const Args& a, Recorder& rec) {
     Clock clk; std::vector<double> betas = { 0.5, 5, 40 }; if (a.thorough()) { betas.push_back(1e-3); betas.push_back(1e3); }
     std::vector<SymMode> modes = { SYM_DEFAULT, SYM_IGNORE }; std::vector<long> ns = matsubara_set();
@@ -65,6 +109,7 @@ int run_c01(const Args& a, Recorder& rec) {
             }
         }
     }, clk);
+    container_histories(a, rec, clk);
     return 0;
 }
 
